@@ -40,7 +40,7 @@ func init() {
 const c04ByteShards = 8
 
 func c04SeedNames() []string {
-	return []string{"lib-detached-data-k1", "lib-detached-data-k4", "lib-detached-data-leaf-k1", "lib-authenticode-k1", "openssl-smime-detached", "openssl-smime-nodetach", "openssl-cms-detached-nosmimecap",
+	return []string{"lib-detached-data-k1", "lib-detached-data-k4", "lib-detached-data-k7", "lib-detached-data-leaf-k1", "lib-authenticode-k1", "openssl-smime-detached", "openssl-smime-nodetach", "openssl-cms-detached-nosmimecap",
 		"fixture-authenticode/testdata/test.authenticode.signed", "fixture-authenticode/testdata/test.pecoff.pk7", "fixture-pkcs7/testdata/test.signed"}
 }
 
@@ -48,6 +48,9 @@ func c04Units(tier string) []string {
 	var u []string
 	for _, s := range c04SeedNames() {
 		u = append(u, "edits#"+s)
+		if s == "lib-detached-data-k7" && tier != "thorough" { // the e=3 key: forgeries without the private key are structural edits
+			continue
+		}
 		for k := 0; k < c04ByteShards; k++ {
 			u = append(u, fmt.Sprintf("bytes#%s#%d", s, k))
 		}
@@ -230,6 +233,9 @@ func c04Run(c *hx.Ctx, tier, unit string) {
 		c04Order(c, s)
 		// the bare form (no outer ContentInfo) of the seed is a valid input too
 		for _, e := range p7Edits(*s) {
+			if e.RobustOnly {
+				continue
+			}
 			c.Count("structural_edits", 1)
 			c04Judge(c, s, e.Blob, e.Name, e.Name == "strip outer ContentInfo")
 			c04OrderBlob(c, s, e.Blob, e.Name)
